@@ -12,6 +12,8 @@ import sys
 import time
 import traceback
 
+from sim import isolate
+
 VERIF = os.path.dirname(os.path.dirname(os.path.abspath(__file__)))
 KNOWN_FILE = os.path.join(VERIF, 'known_findings.json')
 # (the sensitivity suite points these at scratch directories: a run against a
@@ -114,8 +116,12 @@ def run_batch(engine, tier, hs, stats, known, max_examples, deadline, shrink_s=6
     # engines that enumerate many runs per plan stop enumerating at this time
     engine.deadline = deadline + 20
 
+    executed = []       # plans of this batch, in order (generation phase only)
+
     def classify(plan, shrinking):
         st = Stats() if shrinking else stats
+        if not shrinking:
+            executed.append(plan)
         violations = engine.execute(plan, st)
         fresh = []
         for v in violations:
@@ -158,6 +164,7 @@ def run_batch(engine, tier, hs, stats, known, max_examples, deadline, shrink_s=6
         if not shrinking:
             failure['target'] = sig_key(fresh[0]['signature'])
             failure['shrink_deadline'] = time.monotonic() + shrink_s
+            failure['first_index'] = len(executed) - 1
         hit = [v for v in fresh if sig_key(v['signature']) == failure['target']]
         if not hit:
             return
@@ -179,8 +186,68 @@ def run_batch(engine, tier, hs, stats, known, max_examples, deadline, shrink_s=6
     if failure:
         failure['hseed'] = hs
         failure.pop('shrink_deadline', None)
+        # what this process had executed before the first failing plan
+        failure['prefix'] = executed[:max(0, failure.pop('first_index', len(executed)) )]
         return failure
     return None
+
+
+def _fails(engine, known, plans, target):
+    """In a fresh child of the pristine worker: run plans in order; does the last one
+    show a (non-known) violation with the target signature?"""
+    def child():
+        st = Stats()
+        out = False
+        for i, p in enumerate(plans):
+            vs = engine.execute(p, st)
+            if i == len(plans) - 1:
+                out = any(match_known(known, v['signature']) is None
+                          and sig_key(v['signature']) == target for v in vs)
+        return out
+    try:
+        return bool(isolate.fork_call(child, timeout=300))
+    except isolate.ChildFailure:
+        return False
+
+
+def confirm_with_prefix(engine, known, failure, budget_s=90):
+    """A failure found inside a batch: standalone, or only after earlier cases?
+
+    Cross-case state in the code under test (a module-level cache, say) makes a
+    case fail only after certain earlier cases of the same process.  Then the
+    replay file carries those earlier cases ('prefix', minimised by delta
+    debugging) and replays them first."""
+    target = sig_key(failure['violation']['signature'])
+    plan = failure['plan']
+    prefix = failure.pop('prefix', None) or []
+    if _fails(engine, known, [plan], target):
+        return failure
+    if not prefix or not _fails(engine, known, prefix + [plan], target):
+        failure['unconfirmed_in_worker'] = True
+        return failure
+    t_end = time.monotonic() + budget_s
+    n = 2
+    while len(prefix) >= 2 and time.monotonic() < t_end:
+        chunk = max(1, len(prefix) // n)
+        reduced = False
+        for i in range(0, len(prefix), chunk):
+            cand = prefix[:i] + prefix[i + chunk:]
+            if time.monotonic() > t_end:
+                break
+            if _fails(engine, known, cand + [plan], target):
+                prefix = cand
+                n = max(n - 1, 2)
+                reduced = True
+                break
+        if not reduced:
+            if chunk == 1:
+                break
+            n = min(n * 2, len(prefix))
+    if len(prefix) == 1 and time.monotonic() < t_end and _fails(engine, known, [plan], target):
+        prefix = []
+    failure['prefix'] = prefix
+    failure['violation'] = dict(failure['violation'], needs_earlier_cases=len(prefix))
+    return failure
 
 
 def _worker(args):
@@ -200,8 +267,25 @@ def _worker(args):
             if time.monotonic() > deadline:
                 break
             hs = hseed(seed_, engine.prop, w, j)
-            failure = run_batch(engine, tier, hs, stats, known, max_examples, deadline,
-                                60 if tier == 'quick' else 300)
+            shrink_s = 60 if tier == 'quick' else 300
+            if getattr(engine, 'isolates_plans', False):
+                # (the engine forks per plan itself: the worker stays pristine anyway)
+                failure = run_batch(engine, tier, hs, stats, known, max_examples, deadline, shrink_s)
+                if failure:
+                    failure.pop('prefix', None)
+            else:
+                # the batch runs in a child forked from this (pristine) worker, so that
+                # state the code under test keeps between cases cannot outlive the batch,
+                # and a failure is known together with everything that preceded it
+                def child():
+                    st = Stats()
+                    fl = run_batch(engine, tier, hs, st, known, max_examples, deadline, shrink_s)
+                    return {'stats': st.export(), 'failure': fl}
+                res = isolate.fork_call(child, timeout=max(120, (deadline - time.monotonic()) + shrink_s + 240))
+                stats = Stats.merge([stats.export(), res['stats']])
+                failure = res['failure']
+                if failure:
+                    failure = confirm_with_prefix(engine, known, failure)
             done += 1
             if failure:
                 failure['worker'] = w
@@ -231,6 +315,9 @@ def write_replay(engine, seed_, failure):
         'plan': failure['plan'],
         'violation': failure['violation'],
     }
+    if failure.get('prefix'):
+        # earlier cases of the same process that are needed for the violation to show
+        body['prefix'] = failure['prefix']
     dg = hashlib.sha256(json.dumps(body, sort_keys=True, default=str).encode()).hexdigest()[:12]
     path = os.path.join(REPLAY_DIR, '{}-{}-{}.json'.format(engine.prop, seed_, dg))
     with open(path, 'w') as f:
@@ -260,6 +347,8 @@ def replay(path):
     known = load_known(engine.prop)
     want = sig_key(body['violation']['signature'])
     st = Stats()
+    for p in body.get('prefix') or []:
+        engine.execute(p, Stats())      # earlier cases of the same process, replayed first
     violations = engine.execute(body['plan'], st)
     engine.worker_exit()
     fresh = [v for v in violations if match_known(known, v['signature']) is None]
